@@ -179,9 +179,14 @@ pub fn search(what: &str, _seed: u64) -> Option<(Vec<u8>, String)> {
     let check: fn(&[u8]) -> Option<String> = match what {
         "lid" => lid_disagrees,
         "locale" => locale_disagrees,
+        "rt" | "inv" | "mut" | "fromparts" => locale_disagrees,
         _ => return None,
     };
     if what == "locale" { return search_locale(); }
+    if what == "rt" { return crate::bounded::rt_search(); }
+    if what == "inv" { return crate::bounded::inv_search(); }
+    if what == "mut" { return crate::bounded::mut_search(); }
+    if what == "fromparts" { return crate::bounded::fromparts_search(); }
     // sequences of up to 4 subtags: first from a small set of heads, rest from the alphabet
     let heads: Vec<Vec<u8>> = vec![b"en".to_vec(), b"und".to_vec(), b"EN".to_vec(), b"e".to_vec(), b"root".to_vec()];
     let mut buf: Vec<u8> = vec![];
@@ -205,7 +210,7 @@ pub fn search(what: &str, _seed: u64) -> Option<(Vec<u8>, String)> {
 /// locale search: "en" followed by up to 5 subtags from an extension-oriented alphabet
 fn search_locale() -> Option<(Vec<u8>, String)> {
     let a: Vec<&[u8]> = vec![b"u", b"t", b"x", b"a", b"U", b"ca", b"nu", b"h0", b"m0", b"1a", b"a1", b"en", b"de", b"US", b"Latn", b"latn",
-        b"macos", b"1996", b"true", b"TRUE", b"buddhist", b"gregory", b"hybrid", b"abc", b"ab1", b"toolongsubtag", b"", b"!", b"ux", b"foo", b"zz9", b"419", b"und", b"x1"];
+        b"macos", b"1996", b"true", b"TRUE", b"buddhist", b"gregory", b"hybrid", b"abc", b"ab1", b"toolongsubtag", b"", b"!", b"ux", b"foo", b"zz9", b"419", b"und", b"x1", b"1", b"9", b"Z"];
     let mut buf: Vec<u8> = vec![];
     for n in 1..=5usize {
         let mut idx = vec![0usize; n];
